@@ -136,6 +136,7 @@ cell!(CCount, SCount, u8, [long, short, action = ArgAction::Count], extract: |m|
 // ---- required T
 cell!(CReqStr, SReqStr, String, [long], extract: |m| m.get_one::<String>("f").cloned().unwrap(), domain: vec![s("v"), s("")], print: |v| vec![format!("--f={}", v)]);
 cell!(CReqU8, SReqU8, u8, [long, short], extract: |m| *m.get_one::<u8>("f").unwrap(), domain: vec![0, 7, 255], print: |v| vec![s("-f"), v.to_string()]);
+cell!(CReqU32, SReqU32, u32, [long], extract: |m| *m.get_one::<u32>("f").unwrap(), domain: vec![0, u32::MAX - 1, u32::MAX], print: |v| vec![format!("--f={}", v)]);
 cell!(CReqEnum, SReqEnum, Mode, [long, value_enum], extract: |m| m.get_one::<Mode>("f").cloned().unwrap(), domain: vec![Mode::Fast, Mode::Slow], print: |v| vec![s("--f"), v.to_possible_value().unwrap().get_name().to_string()]);
 cell!(CReqPos, SReqPos, String, [], extract: |m| m.get_one::<String>("f").cloned().unwrap(), domain: vec![s("v"), s("7")], print: |v| vec![v.clone()]);
 // ---- default_value_t
@@ -478,6 +479,41 @@ scell!(CBoxFlatten, SBoxFlatten,
     print: |v| { let mut a = vec![format!("--name={}", v.inner.name)]; if let Some(o) = &v.other { a.push(format!("--other={}", o)); } a },
     update_model: |v, m| { if cli(m, "name") { if let Some(n) = m.get_one::<String>("name") { v.inner.name = n.clone(); } } if cli(m, "other") { v.other = m.get_one::<String>("other").cloned(); } });
 
+// bare `short`: the flag is the first character of the *case-converted* field name
+#[derive(Parser, Debug, PartialEq, Clone)]
+#[command(name = "prog")]
+#[allow(non_snake_case, uncommon_codepoints)]
+struct SShortNames {
+    #[arg(short)]
+    _quiet: bool,
+    #[arg(short, long)]
+    über: bool,
+    #[arg(long)]
+    other: Option<String>,
+}
+
+#[derive(Parser, Debug, PartialEq, Clone)]
+#[command(name = "prog", rename_all = "SCREAMING_SNAKE_CASE")]
+#[allow(non_snake_case, uncommon_codepoints)]
+struct SShortNamesUpper {
+    #[arg(short, long)]
+    über: bool,
+    #[arg(long)]
+    other: Option<String>,
+}
+
+scell!(CShortNames, SShortNames,
+    model: |m| Some(SShortNames { _quiet: m.get_flag("_quiet"), über: m.get_flag("über"), other: m.get_one::<String>("other").cloned() }),
+    domain: vec![SShortNames { _quiet: false, über: false, other: None }, SShortNames { _quiet: true, über: false, other: None }, SShortNames { _quiet: true, über: true, other: Some(s("o")) }],
+    print: |v| { let mut a = vec![]; if v._quiet { a.push(s("-q")); } if v.über { a.push(s("-ü")); } if let Some(o) = &v.other { a.push(format!("--other={}", o)); } a },
+    update_model: |v, m| { if cli(m, "_quiet") { v._quiet = m.get_flag("_quiet"); } if cli(m, "über") { v.über = m.get_flag("über"); } if cli(m, "other") { v.other = m.get_one::<String>("other").cloned(); } });
+
+scell!(CShortNamesUpper, SShortNamesUpper,
+    model: |m| Some(SShortNamesUpper { über: m.get_flag("über"), other: m.get_one::<String>("other").cloned() }),
+    domain: vec![SShortNamesUpper { über: false, other: None }, SShortNamesUpper { über: true, other: Some(s("o")) }],
+    print: |v| { let mut a = vec![]; if v.über { a.push(s("-Ü")); } if let Some(o) = &v.other { a.push(format!("--OTHER={}", o)); } a },
+    update_model: |v, m| { if cli(m, "über") { v.über = m.get_flag("über"); } if cli(m, "other") { v.other = m.get_one::<String>("other").cloned(); } });
+
 scell!(COptFlatten, SOptFlatten,
     model: |m| Some(SOptFlatten { inner: if cli(m, "name") || cli(m, "force") { Some(model_inner(m)) } else { None }, other: m.get_one::<String>("other").cloned() }),
     domain: vec![SOptFlatten { inner: None, other: None }, SOptFlatten { inner: Some(Inner { name: Some(s("n")), force: false }), other: Some(s("o")) }, SOptFlatten { inner: Some(Inner { name: None, force: true }), other: None }],
@@ -519,7 +555,7 @@ fn corpus() -> Vec<Box<dyn Cell>> {
         Box::new(CVecStr), Box::new(CVecU8), Box::new(CVecPos), Box::new(CVecN), Box::new(CVecEnum),
         Box::new(COptVecStr), Box::new(COptVecN0),
         Box::new(CGlobal), Box::new(CDefMissing),
-        Box::new(CSetFalse), Box::new(CDefVals), Box::new(CReqVec), Box::new(COptBool), Box::new(CShortOnly), Box::new(CReqPosVec), Box::new(CCountU8Def), Box::new(CReqFlatten), Box::new(CBoxFlatten), Box::new(CScalarAppend), Box::new(CScalarN), Box::new(CReqScalarN),
+        Box::new(CSetFalse), Box::new(CDefVals), Box::new(CReqVec), Box::new(COptBool), Box::new(CShortOnly), Box::new(CReqPosVec), Box::new(CCountU8Def), Box::new(CReqFlatten), Box::new(CBoxFlatten), Box::new(CShortNames), Box::new(CShortNamesUpper), Box::new(CReqU32), Box::new(CScalarAppend), Box::new(CScalarN), Box::new(CReqScalarN),
         Box::new(CFlatten), Box::new(COptFlatten), Box::new(CSub), Box::new(COptSub), Box::new(CFlatSub),
     ]
 }
@@ -527,7 +563,7 @@ fn corpus() -> Vec<Box<dyn Cell>> {
 /// Classify an update mismatch by cause: is it exactly "a field whose argument has a default
 /// (flag, counter, default_value) was put back to that default although the line does not name it"?
 fn update_cause(cell: &str, got: &str, want: &str, upd_has_f: bool) -> String {
-    let defaulted_cell = matches!(cell, "SBool" | "SCount" | "SDefU8" | "SDefEnum" | "SDefStr" | "SSetFalse" | "SDefVals" | "SCountU8Def");
+    let defaulted_cell = matches!(cell, "SBool" | "SCount" | "SDefU8" | "SDefEnum" | "SDefStr" | "SSetFalse" | "SDefVals" | "SCountU8Def" | "SShortNames" | "SShortNamesUpper");
     // structural types: the only defaulted leaf is the flag `force`
     let force_reset = got.replace("force: false", "force: true") == want.replace("force: false", "force: true");
     if (defaulted_cell && !upd_has_f) || (!defaulted_cell && force_reset && got != want) {
